@@ -142,11 +142,32 @@ package querylog
 //@ func (l *queryLog) searchMemory(ctx context.Context, params *searchParams, cache clientCache) (entries []*logEntry, total int)
 //@   trusted
 //@   modifies entries(cache), lastTS, reqLimit
-//@ func (l *queryLog) searchFiles(ctx context.Context, params *searchParams, cache clientCache) (entries []*logEntry, oldest time.Time, total int)
+//@ define totalLimitSpec(offset int, limit int) int = (limit > 9223372036854775807 - offset ? 9223372036854775807 : offset + limit)
+
+//@ func (s *searchParams) valid() (ok bool)
+//@   property C07
+//@   ensures ok == (s.limit > 0 && s.offset >= 0)
+
+//@ func (s *searchParams) totalLimit() (n int)
+//@   property C07
+//@   requires s.limit > 0 && s.offset >= 0
+//@   ensures n == totalLimitSpec(s.offset, s.limit) && n >= s.limit && n >= s.offset
+
+// Opens the log files and seeks (I/O glue, not verified); frame: does not write *params.
+//@ func (l *queryLog) setQLogReader(ctx context.Context, olderThan time.Time) (qr *qLogReader, err error)
 //@   trusted
+//@   modifies fpos
+
+// The frame clause of searchFiles is assumed by its caller and not checked against the body (C07 runs with frame
+// checking off); the functional postcondition is verified: the files are read up to offset+limit entries.
+//@ func (l *queryLog) searchFiles(ctx context.Context, params *searchParams, cache clientCache) (entries []*logEntry, oldest time.Time, total int)
+//@   property C07
+//@   requires params.limit > 0 && params.offset >= 0
 //@   modifies entries(cache), lastTS, reqLimit, fpos
+//@   ensures reads-offset-plus-limit: reqLimit == old(reqLimit) || reqLimit == totalLimitSpec(old(params.offset), old(params.limit))
 
 //@ func (l *queryLog) search(ctx context.Context, params *searchParams) (entries []*logEntry, oldest time.Time)
 //@   property C07
 //@   modifies *
-//@   ensures page-size: old(params.limit) >= 0 && old(params.offset) >= 0 && old(params.offset) + old(params.limit) <= 4611686018427387904 ==> len(entries) <= old(params.limit)
+//@   ensures page-size: old(params.limit) >= 0 && old(params.offset) >= 0 ==> len(entries) <= old(params.limit)
+//@   ensures malformed-page-empty: old(params.limit) <= 0 || old(params.offset) < 0 ==> len(entries) == 0
